@@ -1088,6 +1088,12 @@ def _opaque_str(I, self, args, kw, fr, site):
     c = ropes.conc_value(self)
     name = site.split("(")[-1].split(")")[0] if "(" in site else ""
     allc = [ropes.conc_value(a) if isinstance(a, VSeq) else None for a in args]
+    if name == "format" and isinstance(c, str) and not kw and all(isinstance(x, str) for x in allc):
+        # every piece concrete: the real result
+        try:
+            return ropes.const_seq(c.format(*allc))
+        except (IndexError, KeyError, ValueError):
+            pass
     pt = "bytes" if self.pytype != "str" else "str"
     return VSeq([Seg("A", I.st.fresh_seq("strop"), I.fresh_len("strop"))], pt)
 
